@@ -134,6 +134,61 @@ def run_tlc(module, cfg=None, workers=16, env=None, timeout=3600, simulate=None,
 _COV_RE = re.compile(r'^<(\w+) line (\d+), col (\d+) to line (\d+), col (\d+) of module (\w+)>: (\d+):(\d+)')
 
 
+def _balanced(txt):
+    """<< and >> balanced outside string literals?"""
+    depth = 0
+    i = 0
+    n = len(txt)
+    instr = False
+    while i < n:
+        c = txt[i]
+        if instr:
+            if c == "\\":
+                i += 2
+                continue
+            if c == '"':
+                instr = False
+        else:
+            if c == '"':
+                instr = True
+            elif txt.startswith("<<", i):
+                depth += 1
+                i += 2
+                continue
+            elif txt.startswith(">>", i):
+                depth -= 1
+                i += 2
+                continue
+        i += 1
+    return depth <= 0 and not instr
+
+
+_STR_RE = re.compile(r'"((?:[^"\\]|\\.)*)"')
+
+
+def _tuple_record(txt, res):
+    """One printed tuple <<"TAG", ...>> (possibly wrapped over several lines by TLC's pretty printer)."""
+    strs = _STR_RE.findall(txt)
+    if not strs:
+        return True
+    tag = strs[0]
+    if tag == "EMIT":
+        res.emits.append(json.loads(_unescape_tla_string(strs[1])))
+    elif tag == "UNIV":
+        res.univ = json.loads(_unescape_tla_string(strs[1]))
+    elif tag == "ACCEPT":
+        m = re.search(r'"ACCEPT"\s*,\s*(\d+)', txt)
+        res.accepts.add(int(m.group(1)))
+    elif tag == "RES":
+        m = re.search(r'"RES"\s*,\s*(\d+)', txt)
+        res.res[int(m.group(1))] = strs[1:]
+    elif tag == "NOTE":
+        res.notes.append(txt)
+    else:
+        return True
+    return True
+
+
 def _parse(out, res):
     lines = out.splitlines()
     i = 0
@@ -141,29 +196,17 @@ def _parse(out, res):
     bad = 0
     while i < n:
         ln = lines[i]
-        if ln.startswith("<<\""):
-            m = _EMIT_RE.match(ln)
-            if m:
-                try:
-                    res.emits.append(json.loads(_unescape_tla_string(m.group(1))))
-                except ValueError:
-                    bad += 1
-            else:
-                m = _ACCEPT_RE.match(ln)
-                mu = _UNIV_RE.match(ln)
-                mr = _RES_RE.match(ln)
-                if mr:
-                    res.res[int(mr.group(1))] = re.findall(r'"([^"]*)"', mr.group(2))
-                elif mu:
-                    res.univ = json.loads(_unescape_tla_string(mu.group(1)))
-                elif m:
-                    res.accepts.add(int(m.group(1)))
-                else:
-                    m = _NOTE_RE.match(ln)
-                    if m:
-                        res.notes.append(m.group(1))
-                    elif '"EMIT"' in ln or '"ACCEPT"' in ln or '"RES"' in ln:
-                        bad += 1
+        if ln.startswith("<<"):
+            buf = ln
+            j = i
+            while not _balanced(buf) and j + 1 < n and j - i < 400:
+                j += 1
+                buf += " " + lines[j].strip()
+            try:
+                _tuple_record(buf, res)
+            except (ValueError, AttributeError, IndexError):
+                bad += 1
+            i = j
         elif ln.startswith("Error:"):
             if res.violation is None:
                 m = re.match(r"Error: Invariant (\S+) is violated", ln)
@@ -184,7 +227,6 @@ def _parse(out, res):
                 elif "The behavior up to this point" in ln or "The following behavior" in ln:
                     pass
                 else:
-                    # evaluation errors etc. are machinery failures
                     tail = "\n".join(lines[i:i + 30])
                     raise TLCError("TLC error:\n" + tail)
         else:
